@@ -622,6 +622,8 @@ pub fn run(op: &str, a: &Args) -> Option<Args> {
     Some(match op {
         "c16.hist" => run_hist(&decode_ops(a), true),
         "c16.ffi_rt" => ffi_roundtrip(a),
+        "c16.bbop" => bool_array_op_mut(a),
+        "c16.shrink" => shrink_claimed(a),
         _ => return None,
     })
 }
@@ -631,7 +633,27 @@ use arrow_array::builder::*;
 use arrow_array::types::*;
 use arrow_array::{make_array, StructArray};
 
-fn make_typed_array(ty: usize, len: usize, r: &mut Rng) -> ArrayRef {
+type Owners = Vec<(Arc<Backing>, Arc<AtomicUsize>)>;
+/// An Int32Array over a custom allocation whose owner counts its drops.
+fn custom_int32(vals: &[i32], owners: &mut Owners) -> Int32Array {
+    let bytes: Vec<u8> = vals.iter().flat_map(|v| v.to_le_bytes()).collect();
+    let backing = Arc::new(Backing::new(&bytes));
+    let drops = Arc::new(AtomicUsize::new(0));
+    let owner = Arc::new(CustomOwner { backing: backing.clone(), drops: drops.clone() });
+    // SAFETY: the backing store is valid for the length and outlives every arrow object of the case (kept in `owners`)
+    let buf = unsafe { Buffer::from_custom_allocation(NonNull::new(backing.addr as *mut u8).unwrap(), bytes.len(), owner) };
+    owners.push((backing, drops));
+    Int32Array::new(ScalarBuffer::new(buf, 0, vals.len()), None)
+}
+/// Dictionary<Int8, Int32> whose VALUES live in a custom allocation (its owner must be released exactly once).
+fn custom_dict(len: usize, r: &mut Rng, owners: &mut Owners) -> arrow_array::DictionaryArray<Int8Type> {
+    let nvals = 1 + r.below(5);
+    let vals: Vec<i32> = (0..nvals).map(|_| r.next() as i32).collect();
+    let values = custom_int32(&vals, owners);
+    let keys: arrow_array::Int8Array = (0..len).map(|_| if r.chance(1, 4) { None } else { Some(r.below(nvals) as i8) }).collect();
+    arrow_array::DictionaryArray::<Int8Type>::try_new(keys, Arc::new(values)).expect("dictionary")
+}
+fn make_typed_array(ty: usize, len: usize, r: &mut Rng, owners: &mut Owners) -> ArrayRef {
     let null = |r: &mut Rng| r.chance(1, 4);
     match ty {
         0 => Arc::new((0..len).map(|_| if null(r) { None } else { Some(r.next() as i32) }).collect::<Int32Array>()),
@@ -646,8 +668,8 @@ fn make_typed_array(ty: usize, len: usize, r: &mut Rng) -> ArrayRef {
             Arc::new(b.finish())
         }
         7 => {
-            let x: ArrayRef = make_typed_array(0, len, r);
-            let y: ArrayRef = make_typed_array(3, len, r);
+            let x: ArrayRef = make_typed_array(0, len, r, owners);
+            let y: ArrayRef = make_typed_array(3, len, r, owners);
             Arc::new(StructArray::from(vec![(Arc::new(Field::new("x", DataType::Int32, true)), x), (Arc::new(Field::new("y", DataType::Utf8, true)), y)]))
         }
         8 => {
@@ -662,6 +684,23 @@ fn make_typed_array(ty: usize, len: usize, r: &mut Rng) -> ArrayRef {
             for _ in 0..len { for _ in 0..3 { b.values().append_value(r.next() as i32) } b.append(!null(r)) }
             Arc::new(b.finish())
         }
+        13 => Arc::new(custom_dict(len, r, owners)),
+        14 => {
+            // struct { d: Dictionary (custom values), x: Int32 (custom) }
+            let d: ArrayRef = Arc::new(custom_dict(len, r, owners));
+            let xv: Vec<i32> = (0..len).map(|_| r.next() as i32).collect();
+            let x: ArrayRef = Arc::new(custom_int32(&xv, owners));
+            Arc::new(StructArray::from(vec![(Arc::new(Field::new("d", d.data_type().clone(), true)), d), (Arc::new(Field::new("x", DataType::Int32, true)), x)]))
+        }
+        15 => {
+            // list<Dictionary (custom values)>
+            let mut offs = vec![0i32];
+            for _ in 0..len { let l = *offs.last().unwrap(); offs.push(l + r.below(4) as i32); }
+            let child = custom_dict(*offs.last().unwrap() as usize, r, owners);
+            let field = Arc::new(Field::new("item", child.data_type().clone(), true));
+            let nulls = if r.bool() { Some(NullBuffer::from((0..len).map(|_| !null(r)).collect::<Vec<bool>>())) } else { None };
+            Arc::new(arrow_array::ListArray::new(field, arrow_buffer::OffsetBuffer::new(ScalarBuffer::from(offs)), Arc::new(child), nulls))
+        }
         _ => Arc::new(arrow_array::NullArray::new(len)),
     }
 }
@@ -673,12 +712,15 @@ fn ffi_roundtrip(a: &Args) -> Args {
     let n = |k: usize| to_usize(&a[0][k..k + 1].to_vec());
     let (ty, len, seed, so, sl, mode) = (n(0), n(1), n(2), n(3), n(4), n(5));
     let mut r = Rng::new(seed as u64);
-    let full = make_typed_array(ty, len, &mut r);
+    let mut owners: Owners = Vec::new();
+    let full = make_typed_array(ty, len, &mut r, &mut owners);
     let arr = full.slice(so, sl);
     drop(full);
+    // no custom owner (dictionary values, struct child) may be released while something still refers to it
+    let none_released = |owners: &Owners| owners.iter().all(|(_, c)| c.load(Ordering::SeqCst) == 0);
     let count = Arc::new(AtomicUsize::new(0));
     let mut equal = true;
-    let mut rel_ok = true;
+    let mut rel_ok = none_released(&owners);
     if mode == 3 {
         let schema = Arc::new(Schema::new(vec![Field::new("c", arr.data_type().clone(), true)]));
         let batch = RecordBatch::try_new(schema.clone(), vec![arr.clone()]).expect("batch");
@@ -690,6 +732,10 @@ fn ffi_roundtrip(a: &Args) -> Args {
         equal &= got.len() == 2 && got.iter().all(|g| g == &batch);
         drop(rd);
         equal &= got.iter().all(|g| g == &batch);
+        rel_ok &= none_released(&owners);
+        // drop the exporter's side first or the imported batches first
+        if seed % 2 == 0 { drop(arr); drop(batch); rel_ok &= got.is_empty() || sl == 0 || none_released(&owners) || holds_nothing(got[0].column(0)); drop(got); }
+        else { drop(got); rel_ok &= none_released(&owners); drop(batch); drop(arr); }
         count.fetch_add(1, Ordering::SeqCst);
     } else {
         let data = arr.to_data();
@@ -698,6 +744,8 @@ fn ffi_roundtrip(a: &Args) -> Args {
         count_releases(&mut f, count.clone());
         if mode == 2 {
             drop(f);
+            rel_ok &= none_released(&owners);
+            drop(arr);
         } else {
             // SAFETY: produced by to_ffi
             let imported = make_array(unsafe { from_ffi(f, &schema) }.expect("from_ffi"));
@@ -714,16 +762,21 @@ fn ffi_roundtrip(a: &Args) -> Args {
                 drop(imported);
                 rel_ok &= count.load(Ordering::SeqCst) == if holds { 0 } else { 1 };
                 equal &= i2.to_data() == expect;
+                drop(expect);
                 drop(i2);
             } else {
                 drop(imported);
                 rel_ok &= count.load(Ordering::SeqCst) == 1;
+                rel_ok &= none_released(&owners);
                 equal &= arr.to_data() == expect;
+                drop(expect);
                 drop(arr);
             }
         }
     }
     rel_ok &= count.load(Ordering::SeqCst) == 1;
+    // everything is gone: every custom owner (in particular the dictionary values' one) was released exactly once
+    rel_ok &= owners.iter().all(|(_, c)| c.load(Ordering::SeqCst) == 1);
     vec![gs(&[equal as i64, rel_ok as i64])]
 }
 /// true when the imported array cannot hold the exporter's structure (all its buffers are empty)
@@ -732,6 +785,69 @@ fn holds_nothing(a: &ArrayRef) -> bool {
         d.buffers().iter().all(|b| b.is_empty()) && d.nulls().is_none() && d.child_data().iter().all(go)
     }
     go(&a.to_data())
+}
+
+// ===================================================================== declined in-place kernels / shrink_to_fit
+fn pack_bits_at(off: usize, bits: &[bool], pad: u8) -> Vec<u8> {
+    let n = (off + bits.len() + 7) / 8;
+    let mut v = vec![pad; n.max(1)];
+    for (i, b) in bits.iter().enumerate() { let k = off + i; if *b { v[k / 8] |= 1 << (k % 8) } else { v[k / 8] &= !(1 << (k % 8)) } }
+    v
+}
+fn barr_view(a: &BooleanArray) -> (Group, Group) {
+    (gbools(a.values().iter()), match a.nulls() { Some(n) => gbools(n.iter()), None => vec![] })
+}
+/// args: [lhs value bits] [lhs validity bits | empty = no null buffer] [rhs value bits] [rhs validity | empty]
+///       [mode; w; bit offset]   mode 0 unique, 1 a clone of lhs is alive, 2 values buffer sliced at byte offset 1
+/// output: [flag 1 Ok / 2 Err] [values of the returned array] [its validity | empty] [clone kept alive: values, -1, validity]
+fn bool_array_op_mut(a: &Args) -> Args {
+    let lb = to_bools(&a[0]); let ln = to_bools(&a[1]); let rb = to_bools(&a[2]); let rn = to_bools(&a[3]);
+    let (mode, w, boff) = (to_usize(&a[4][0..1].to_vec()), to_usize(&a[4][1..2].to_vec()), to_usize(&a[4][2..3].to_vec()));
+    let len = lb.len();
+    let mk_nulls = |bits: &[bool]| if bits.is_empty() { None } else { Some(NullBuffer::new(BooleanBuffer::from(bits.to_vec()))) };
+    let lhs = {
+        let extra = if mode == 2 { 8 } else { 0 };
+        let bytes = pack_bits_at(boff + extra, &lb, 0xA5);
+        let buf = Buffer::from_vec(bytes);
+        let buf = if mode == 2 { buf.slice(1) } else { buf };
+        BooleanArray::new(BooleanBuffer::new(buf, boff, len), mk_nulls(&ln))
+    };
+    let rhs = BooleanArray::new(BooleanBuffer::new(Buffer::from_vec(pack_bits_at(3, &rb, 0x5A)), 3, len), mk_nulls(&rn));
+    let keep = if mode == 1 { Some(lhs.clone()) } else { None };
+    let res = match w { 0 => lhs.bitwise_bin_op_mut(&rhs, |x, y| x & y), 1 => lhs.bitwise_bin_op_mut(&rhs, |x, y| x | y), _ => lhs.bitwise_bin_op_mut(&rhs, |x, y| x ^ y) };
+    let (flag, arr) = match res { Ok(r) => (1, r), Err(r) => (2, r) };
+    let (v, n) = barr_view(&arr);
+    let other = match &keep { Some(k) => { let (kv, kn) = barr_view(k); let mut o = kv; o.push(BigInt::from(-1)); o.extend(kn); o } None => vec![] };
+    vec![g(flag), v, n, other]
+}
+
+/// args: [bytes] [esz; off; l; claim; keep_other; custom]
+/// Buffer (from_vec::<T> or custom allocation) -> claim -> slice_with_length(off, l) -> (drop the original) -> shrink_to_fit
+/// output: [pool.used() after the shrink; capacity after] [bytes visible through the shrunk handle] [pool.used() after everything is dropped]
+fn shrink_claimed(a: &Args) -> Args {
+    let bytes = to_u8s(&a[0]);
+    let n = |k: usize| to_usize(&a[1][k..k + 1].to_vec());
+    let (esz, off, l, claim, keep, custom) = (n(0), n(1), n(2), n(3), n(4), n(5));
+    let pool = TrackingMemoryPool::default();
+    let mut owners: Owners = Vec::new();
+    let buf = if custom == 1 {
+        let backing = Arc::new(Backing::new(&bytes));
+        let drops = Arc::new(AtomicUsize::new(0));
+        let owner = Arc::new(CustomOwner { backing: backing.clone(), drops: drops.clone() });
+        // SAFETY: backing outlives the buffers (kept in owners)
+        let b = unsafe { Buffer::from_custom_allocation(NonNull::new(backing.addr as *mut u8).unwrap(), bytes.len(), owner) };
+        owners.push((backing, drops)); b
+    } else {
+        match esz { 1 => Buffer::from_vec(vec_from_le::<u8, 1>(&bytes, |c| c[0])), 4 => Buffer::from_vec(vec_from_le::<i32, 4>(&bytes, i32::from_le_bytes)), _ => Buffer::from_vec(vec_from_le::<i64, 8>(&bytes, i64::from_le_bytes)) }
+    };
+    if claim == 1 { buf.claim(&pool); }
+    let mut s = buf.slice_with_length(off, l);
+    let other = if keep == 1 { Some(buf) } else { drop(buf); None };
+    s.shrink_to_fit();
+    let out0 = gs(&[pool.used() as i64, s.capacity() as i64]);
+    let out1 = gbytes(s.as_slice());
+    drop(s); drop(other);
+    vec![out0, out1, g(pool.used() as i64)]
 }
 
 // ===================================================================== generators
@@ -1173,7 +1289,7 @@ pub fn generate(tier: &str, r: &mut Rng, emit: &mut dyn FnMut(Case)) {
     }
     let n_rt = if thorough { 6000 } else { 600 };
     for _ in 0..n_rt {
-        let ty = r.below(13);
+        let ty = if r.chance(1, 4) { 13 + r.below(3) } else { r.below(13) };
         let len = *r.pick(&[0usize, 1, 7, 8, 9, 31, 64, 65, 100]);
         let so = r.below(len + 1);
         let sl = if r.chance(1, 3) { len - so } else { r.below(len - so + 1) };
@@ -1181,5 +1297,30 @@ pub fn generate(tier: &str, r: &mut Rng, emit: &mut dyn FnMut(Case)) {
         let seed = r.below(1 << 30);
         emit(Case::new("c16.ffi_rt", vec![gs(&[ty as i64, len as i64, seed as i64, so as i64, sl as i64, mode as i64])],
             &["c16.ffi_rt.post1"], format!("rt t{ty} m{mode} l{}", if sl == 0 { 0 } else if sl < 9 { 1 } else { 2 })));
+    }
+    // BooleanArray::bitwise_bin_op_mut: in place when unique, otherwise the caller's array comes back untouched
+    let n_bb = if thorough { 3000 } else { 300 };
+    for _ in 0..n_bb {
+        let len = *r.pick(&[1usize, 2, 7, 8, 9, 63, 64, 65, 130]);
+        let bits = |r: &mut Rng, n: usize, p: u32| -> Vec<bool> { (0..n).map(|_| r.chance(p, 8)).collect() };
+        let lb = bits(r, len, 4); let rb = bits(r, len, 4);
+        // validity: none / all valid / mostly valid with some nulls
+        let nul = |r: &mut Rng| -> Vec<bool> { match r.below(4) { 0 => vec![], 1 => vec![true; len], _ => { let mut v: Vec<bool> = (0..len).map(|_| r.chance(6, 8)).collect(); let k = r.below(len); v[k] = false; v } } };
+        let ln = nul(r); let rn = nul(r);
+        let mode = r.below(3); let w = r.below(3);
+        let boff = if mode == 0 && r.bool() { r.below(8) } else { *r.pick(&[0usize, 0, 3, 5]) };
+        emit(Case::new("c16.bbop", vec![gbools(lb), gbools(ln.clone()), gbools(rb), gbools(rn.clone()), gs(&[mode as i64, w as i64, boff as i64])],
+            &["c16.bbop.spec"], format!("bb m{mode} w{w} ln{} rn{}", ln.len().min(1), if rn.is_empty() { 0 } else if rn.iter().all(|b| *b) { 1 } else { 2 })));
+    }
+    // shrink_to_fit of claimed buffers (down to nothing, to a prefix, shared, custom)
+    let n_sh = if thorough { 3000 } else { 300 };
+    for _ in 0..n_sh {
+        let esz = *r.pick(&[1usize, 4, 8]);
+        let nb = esz * (1 + r.below(24));
+        let bytes = r.bytes(nb);
+        let (off, l) = match r.below(4) { 0 => (r.below(nb + 1), 0), 1 => (0, r.below(nb + 1)), 2 => (0, nb), _ => { let o = r.below(nb + 1); (o, r.below(nb - o + 1)) } };
+        let claim = r.chance(3, 4) as i64; let keep = r.chance(1, 4) as i64; let custom = r.chance(1, 5) as i64;
+        emit(Case::new("c16.shrink", vec![gbytes(&bytes), gs(&[esz as i64, off as i64, l as i64, claim, keep, custom])],
+            &["c16.shrink.spec"], format!("sh e{} c{claim} k{keep} u{custom}", (l == 0) as u8)));
     }
 }
